@@ -212,9 +212,20 @@ def padLen (payload : Nat) : Nat :=
   let p := 8 - (payload + 5) % 8
   if p < 4 then p + 8 else p
 
-/-- `SshRecordBase._parse` / `compose` around a message codec.  The message parser is handed the
-WHOLE rest of the buffer (`parse_parsable` without a size), not the `packet_length - padding - 1`
-payload bytes; the padding is then read after whatever the message consumed. -/
+/-- `parse_exact_size` of the message on the payload slice inside the `try` of `SshRecordBase._parse`:
+the message must consume the payload exactly; `NotEnoughData` and `TooMuchData` of the inner parse
+are translated to `InvalidValue`, everything else propagates -/
+def parsePayload (m : Codec α) (payload : Bytes) : Except PErr α :=
+  match m.parse payload with
+  | .ok (v, k) => if payload.length > k then .error .invalidValue else .ok v
+  | .error (.notEnough _) => .error .invalidValue
+  | .error (.tooMuch _) => .error .invalidValue
+  | .error e => .error e
+
+/-- `SshRecordBase._parse` / `compose` around a message codec (repaired: the message is parsed from
+exactly the `packet_length - padding_length - 1` payload bytes the header declares; it used to be
+handed the whole rest of the buffer).  A `padding_length` that leaves a negative payload length is
+`InvalidValue`. -/
 def recordCodec (m : Codec α) : Codec α where
   parse := fun bs => do
     let (plen, _) ← parseNum .network 4 bs
@@ -222,9 +233,12 @@ def recordCodec (m : Codec α) : Codec α where
     if plen > rest.length then .error (.notEnough ((plen - rest.length : Nat) : Int))
     else
       let (pad, _) ← parseNum .network 1 rest
-      let (v, k) ← m.parse (rest.drop 1)
-      let (_, _) ← parseRaw (pad : Int) ((rest.drop 1).drop k)
-      pure (v, 4 + 1 + k + pad)
+      if plen < pad + 1 then .error .invalidValue
+      else
+        let (payload, k) ← parseRaw ((plen - pad - 1 : Nat) : Int) (rest.drop 1)
+        let v ← parsePayload m payload
+        let (_, _) ← parseRaw (pad : Int) ((rest.drop 1).drop k)
+        pure (v, 4 + 1 + k + pad)
   compose := fun v => do
     let payload ← m.compose v
     let p := padLen payload.length
